@@ -12,8 +12,9 @@
   Reading guide.  `State` = directory (`fs.target`, `fs.lock`) + one `Actor` per natural number
   (unboundedly many).  `Reach P s0 s`: `s` is reachable from `s0` by ANY schedule — any
   interleaving of any actors at system-call granularity, any call failing with an injected
-  error.  `Initial s0`: no lock file, `f` absent or the initial file, every actor an arbitrary
-  caller script about to open.  `(s.actors i).owns` is the ghost "actor i is between its
+  error; the parent directory of `f`/`f.lock` may be missing and may be removed (while empty) and
+  re-created by other actors.  `Initial s0`: no lock file, `f` absent or the initial file, every
+  actor an arbitrary caller script (or a directory pruner) that has not done anything yet.  `(s.actors i).owns` is the ghost "actor i is between its
   successful open(O_EXCL) and its own rename/unlink of `f.lock`".
 -/
 import DulwichModel.Lemmas.Lock
@@ -59,30 +60,59 @@ theorem holder_iff_handle_open {s0 s : State} (h0 : Initial s0) (h : Reach gitFi
 `i` unlinks or renames `f.lock`, the file at that name is the one `i` created (and `i` holds it). -/
 theorem no_foreign_disturb {s0 s : State} (h0 : Initial s0) (h : Reach gitFile s0 s) (i : Nat)
     (f : Bool)
-    (he : (actorStep gitFile (s.actors i) s.fs.lock.isSome f).2.1 = .replace ∨
-          (actorStep gitFile (s.actors i) s.fs.lock.isSome f).2.1 = .remove) :
+    (he : (actorStep gitFile (s.actors i) s.fs.lock.isSome s.fs.dir s.fs.isEmpty f).2.1 = .replace ∨
+          (actorStep gitFile (s.actors i) s.fs.lock.isSome s.fs.dir s.fs.isEmpty f).2.1 = .remove) :
     s.fs.lock = some i ∧ (s.actors i).owns = true := by
   have hinv := check_sound gitFile gitFile_wellBehaved h0 h
   obtain ⟨_, hrp, hrm, _⟩ :=
-    actorStep_eff (WB.of_bool gitFile_wellBehaved) s.fs.lock.isSome f (hinv.actors i)
+    actorStep_eff (WB.of_bool gitFile_wellBehaved) s.fs.lock.isSome s.fs.dir s.fs.isEmpty f (hinv.actors i)
   rcases he with he | he
   · exact ⟨hinv.ownerHasLock i (hrp he).2.1, (hrp he).2.1⟩
   · exact ⟨hinv.ownerHasLock i (hrm he).2.1, (hrm he).2.1⟩
 
-/-- While one writer holds the lock no other writer can obtain it: the open of any other actor
-fails with `FileExistsError` (→ `FileLocked`) and changes nothing in the directory. -/
+/-- While one writer holds the lock no other writer can obtain it: whichever open of `__init__` an
+acquiring actor is about to make (the first, or a retry after re-creating a vanished parent
+directory), it fails with `FileExistsError` (→ `FileLocked`) and changes nothing in the directory. -/
 theorem open_fails_while_held {s0 s : State} (h0 : Initial s0) (h : Reach gitFile s0 s) (i j : Nat)
-    (hj : (s.actors j).owns = true) (hi : (s.actors i).pc = .start) :
+    (hj : (s.actors j).owns = true) (hi : (s.actors i).pc = .start) {e : Bool} {r : List Bool}
+    (ha : (s.actors i).acqNow gitFile = .open e r) :
     stepOut gitFile s i false = .exists ∧ (step gitFile s i false).fs = s.fs ∧
       ((step gitFile s i false).actors i).owns = false := by
+  have hP := WB.of_bool gitFile_wellBehaved
   have hinv := check_sound gitFile gitFile_wellBehaved h0 h
   have hl : s.fs.lock.isSome = true := by rw [hinv.ownerHasLock j hj]; rfl
-  have hex : gitFile.openExcl = true := (WB.of_bool gitFile_wellBehaved).openExcl
+  have hd : s.fs.dir = true := reach_lock_in_dir h0 h hl
   have hn := ((hinv.actors i).noHandle_of_start hi)
+  have he : e = true := by
+    have := (acqNow_ok hP hn.2.2.2.2.2.2).1
+    rw [ha] at this; exact this.1
+  subst he
   refine ⟨?_, ?_, ?_⟩
-  · simp [stepOut, actorStep, hi, hl, hex]
-  · simp [step, actorStep, hi, hl, hex, applyEff]
-  · simp [step, actorStep, hi, hl, hex, hn.2.1]
+  · simp [stepOut, actorStep, hi, acquireStep, ha, hl, hd]
+  · simp [step, actorStep, hi, acquireStep, ha, hl, hd, applyEff]
+  · simp [step, actorStep, hi, acquireStep, ha, hl, hd, hn.2.1]
+
+/-- The lock is only ever ACQUIRED exclusively, on every path through `__init__`: a transition
+that creates `f.lock` for actor `i` happens in a state without a lock file and without any holder,
+with the parent directory in place.  (This is where `wellBehaved` needs EVERY `os.open` of the lock
+path — retries after ENOENT included — to carry O_EXCL; see
+`retry_without_excl_counterexample`.) -/
+theorem acquisition_is_exclusive {s0 s : State} (h0 : Initial s0) (h : Reach gitFile s0 s) (i : Nat)
+    (f : Bool)
+    (he : (actorStep gitFile (s.actors i) s.fs.lock.isSome s.fs.dir s.fs.isEmpty f).2.1 = .create) :
+    s.fs.lock = none ∧ s.fs.dir = true ∧ ∀ j, (s.actors j).owns = false := by
+  have hP := WB.of_bool gitFile_wellBehaved
+  have hinv := check_sound gitFile gitFile_wellBehaved h0 h
+  obtain ⟨hcr, _, _, _⟩ := actorStep_eff hP s.fs.lock.isSome s.fs.dir s.fs.isEmpty f (hinv.actors i)
+  have hl : s.fs.lock = none := by
+    have := (hcr he).1
+    cases hx : s.fs.lock with
+    | none => rfl
+    | some j => rw [hx] at this; simp at this
+  refine ⟨hl, (actorStep_dirEff gitFile _ _ _ _ f).1 he, fun j => ?_⟩
+  cases ho : (s.actors j).owns with
+  | false => rfl
+  | true => have := hinv.ownerHasLock j ho; rw [hl] at this; simp at this
 
 /-! ## 2. all-or-nothing replacement -/
 
@@ -100,8 +130,8 @@ theorem atomic_replace {s0 s : State} (h0 : Initial s0) (h : Reach gitFile s0 s)
 
 /-- A `with GitFile(f,"wb") as h: for d in ds: h.write(d)` caller that renames at all renames the
 COMPLETE content `ds.flatten`. -/
-theorem with_commit_complete {s0 s : State} (h0 : Initial s0) (i : Nat) {fs pm fin : Bool}
-    {ds : List Bytes} (hi : s0.actors i = withCaller fs pm ds fin) (h : Reach gitFile s0 s)
+theorem with_commit_complete {s0 s : State} (h0 : Initial s0) (i : Nat) {mk fs pm fin : Bool}
+    {ds : List Bytes} (hi : s0.actors i = withCaller mk fs pm ds fin) (h : Reach gitFile s0 s)
     {c : Bytes} (hc : (s.actors i).committed = some c) : c = ds.flatten := by
   obtain ⟨hph, _, _⟩ := reach_with (WB.of_bool gitFile_wellBehaved) False (fun x => x.elim) h0 i hi h
   cases hph with
@@ -118,10 +148,10 @@ theorem with_commit_complete {s0 s : State} (h0 : Initial s0) (i : Nat) {fs pm f
 /-- Readers only ever see the complete old or a complete new content: if every actor is a
 with-caller, the content of `f` is the initial one or the whole intended content of one of them. -/
 theorem readers_see_old_or_complete_new {s0 s : State} (h0 : Initial s0)
-    (cfg : Nat → Bool × Bool × List Bytes × Bool)
-    (hall : ∀ i, s0.actors i = withCaller (cfg i).1 (cfg i).2.1 (cfg i).2.2.1 (cfg i).2.2.2)
+    (mk fs pm fin : Nat → Bool) (ds : Nat → List Bytes)
+    (hall : ∀ i, s0.actors i = withCaller (mk i) (fs i) (pm i) (ds i) (fin i))
     (h : Reach gitFile s0 s) (init : Bytes) :
-    content s init = content s0 init ∨ ∃ i, content s init = some ((cfg i).2.2.1).flatten := by
+    content s init = content s0 init ∨ ∃ i, content s init = some (ds i).flatten := by
   rcases atomic_replace h0 h init with h1 | ⟨i, c, h1, h2, _⟩
   · exact Or.inl h1
   · exact Or.inr ⟨i, by rw [h2, with_commit_complete h0 i (hall i) h h1]⟩
@@ -133,12 +163,12 @@ close() up to and including the rename — fails (injected ENOSPC/EIO/EPERM/Keyb
 `FileLocked`, …) never renames anything into place afterwards, under any continuation of the
 schedule: `f` is not touched by it.  And once it is done, with its handle finalised (`fin`: CPython
 has run `__del__`, i.e. abort()) and no unlink made to fail, its lock is released. -/
-theorem failed_write_keeps_old {s0 s : State} (h0 : Initial s0) (i : Nat) {fs pm fin : Bool}
-    {ds : List Bytes} (hi : s0.actors i = withCaller fs pm ds fin) (h : Reach gitFile s0 s)
+theorem failed_write_keeps_old {s0 s : State} (h0 : Initial s0) (i : Nat) {mk fs pm fin : Bool}
+    {ds : List Bytes} (hi : s0.actors i = withCaller mk fs pm ds fin) (h : Reach gitFile s0 s)
     (f : Bool) (hfail : Out.isFailure (s.actors i).pc (stepOut gitFile s i f) = true)
     {s' : State} (h' : Reach gitFile (step gitFile s i f) s') :
     (s'.actors i).committed = none ∧
-    (∀ g, (actorStep gitFile (s'.actors i) s'.fs.lock.isSome g).2.1 ≠ .replace) ∧
+    (∀ g, (actorStep gitFile (s'.actors i) s'.fs.lock.isSome s'.fs.dir s'.fs.isEmpty g).2.1 ≠ .replace) ∧
     ((s'.actors i).pc = .done → fin = true → (s'.actors i).rmFailed = false →
         (s'.actors i).fcFailed = false →
         (s'.actors i).owns = false ∧ s'.fs.lock ≠ some i) := by
@@ -150,10 +180,10 @@ theorem failed_write_keeps_old {s0 s : State} (h0 : Initial s0) (i : Nat) {fs pm
     induction ht with
     | init =>
       rw [step_actor_self]
-      exact actorStep_registers _ _ (hinv.actors i) hfail
+      exact actorStep_registers _ _ _ _ (hinv.actors i) hfail
     | step t j g _ ih =>
       by_cases hji : i = j
-      · subst hji; rw [step_actor_self]; exact actorStep_Failed _ _ ih
+      · subst hji; rw [step_actor_self]; exact actorStep_Failed _ _ _ _ ih
       · rw [step_actor_other _ _ _ hji]; exact ih
   have hreach : ∀ t, Reach gitFile (step gitFile s i f) t → Reach gitFile s0 t :=
     fun t ht => Reach.trans (Reach.step s i f h) ht
@@ -167,7 +197,7 @@ theorem failed_write_keeps_old {s0 s : State} (h0 : Initial s0) (i : Nat) {fs pm
   · -- a rename would set `committed`, but in the successor state it is still `none`
     have h1 := hnone _ (Reach.step s' i g h')
     rw [step_actor_self] at h1
-    obtain ⟨_, hrp, _, _⟩ := actorStep_eff hP s'.fs.lock.isSome g (hinv'.actors i)
+    obtain ⟨_, hrp, _, _⟩ := actorStep_eff hP s'.fs.lock.isSome s'.fs.dir s'.fs.isEmpty g (hinv'.actors i)
     rw [(hrp heq).2.2.2] at h1; simp at h1
   · obtain ⟨hph, _, hcfg⟩ := reach_with hP False (fun x => x.elim) h0 i hi (hreach s' h')
     have hC : (s'.actors i).hC = [.abort] := by
@@ -198,8 +228,8 @@ theorem failed_write_keeps_old {s0 s : State} (h0 : Initial s0) (i : Nat) {fs pm
 
 /-- The same release guarantee without any failure: a finalised with-caller that is done (and whose
 unlink was not made to fail) does not hold the lock. -/
-theorem with_done_releases {s0 s : State} (h0 : Initial s0) (i : Nat) {fs pm : Bool}
-    {ds : List Bytes} (hi : s0.actors i = withCaller fs pm ds true) (h : Reach gitFile s0 s)
+theorem with_done_releases {s0 s : State} (h0 : Initial s0) (i : Nat) {mk fs pm : Bool}
+    {ds : List Bytes} (hi : s0.actors i = withCaller mk fs pm ds true) (h : Reach gitFile s0 s)
     (hd : (s.actors i).pc = .done) (hrm : (s.actors i).rmFailed = false)
     (hfc : (s.actors i).fcFailed = false) :
     (s.actors i).owns = false := by
@@ -237,7 +267,7 @@ the premise was false, see `with_close_fault_leaves_lock_counterexample`; it hol
 as it is now: `close_failure_releases_lock_now`.) -/
 theorem close_failure_releases_lock (P : Program) (hP : P.wellBehaved = true)
     (hA : P.abortsOnAnyCloseFailure = true) {s0 s : State} (h0 : Initial s0) (i : Nat)
-    {fs pm fin : Bool} {ds : List Bytes} (hi : s0.actors i = withCaller fs pm ds fin)
+    {mk fs pm fin : Bool} {ds : List Bytes} (hi : s0.actors i = withCaller mk fs pm ds fin)
     (h : Reach P s0 s) (hd : (s.actors i).pc = .done) (hrm : (s.actors i).rmFailed = false)
     (hfc : (s.actors i).fcFailed = false) :
     (s.actors i).owns = false ∧ s.fs.lock ≠ some i := by
@@ -282,7 +312,7 @@ inside abort() raised before the unlink (`fcFailed`: finding
 F-C07-abort-file-close-error-skips-unlink, `persistent_fault_abort_skips_unlink_counterexample`;
 since eda3035 that cannot happen any more, see `failed_write_releases_lock_now`). -/
 theorem close_failure_releases_lock_now {s0 s : State} (h0 : Initial s0) (i : Nat)
-    {fs pm fin : Bool} {ds : List Bytes} (hi : s0.actors i = withCaller fs pm ds fin)
+    {mk fs pm fin : Bool} {ds : List Bytes} (hi : s0.actors i = withCaller mk fs pm ds fin)
     (h : Reach gitFile s0 s) (hd : (s.actors i).pc = .done)
     (hrm : (s.actors i).rmFailed = false) (hfc : (s.actors i).fcFailed = false) :
     (s.actors i).owns = false ∧ s.fs.lock ≠ some i :=
@@ -293,8 +323,8 @@ theorem close_failure_releases_lock_now {s0 s : State} (h0 : Initial s0) (i : Na
 abort() (eda3035) the `fcFailed` proviso disappears: only a failing unlink can keep the lock. -/
 theorem abort_close_in_try_releases_lock (P : Program) (hP : P.wellBehaved = true)
     (hA : P.abortsOnAnyCloseFailure = true) (hT : P.abortCloseInTry = true) {s0 s : State}
-    (h0 : Initial s0) (i : Nat) {fs pm fin : Bool} {ds : List Bytes}
-    (hi : s0.actors i = withCaller fs pm ds fin) (h : Reach P s0 s)
+    (h0 : Initial s0) (i : Nat) {mk fs pm fin : Bool} {ds : List Bytes}
+    (hi : s0.actors i = withCaller mk fs pm ds fin) (h : Reach P s0 s)
     (hd : (s.actors i).pc = .done) (hrm : (s.actors i).rmFailed = false) :
     (s.actors i).owns = false ∧ s.fs.lock ≠ some i :=
   close_failure_releases_lock P hP hA h0 i hi h hd hrm (reach_fcFailed hT h0 h i)
@@ -311,7 +341,7 @@ object's close inside abort() fails again — a `with GitFile(...)` caller (and 
 its file, whether or not its handle was ever finalised.  The only proviso left is an `os.remove`
 that was itself made to fail, about which the code can do nothing. -/
 theorem failed_write_releases_lock_now {s0 s : State} (h0 : Initial s0) (i : Nat)
-    {fs pm fin : Bool} {ds : List Bytes} (hi : s0.actors i = withCaller fs pm ds fin)
+    {mk fs pm fin : Bool} {ds : List Bytes} (hi : s0.actors i = withCaller mk fs pm ds fin)
     (h : Reach gitFile s0 s) (hd : (s.actors i).pc = .done)
     (hrm : (s.actors i).rmFailed = false) :
     (s.actors i).owns = false ∧ s.fs.lock ≠ some i :=
@@ -326,8 +356,8 @@ def C : Bytes := [67]
 
 /-- three `with GitFile(f,"wb") as h: h.write(X)` callers, fsync on, no shared_perm -/
 def three : State :=
-  State.ofList true [withCaller true false [A] false, withCaller true false [B] false,
-                     withCaller true false [C] false]
+  State.ofList true [withCaller false true false [A] false, withCaller false true false [B] false,
+                     withCaller false true false [C] false]
 
 /-- corpus/C07/three_actor_foreign_lock_removed*.json: actor 0 runs up to and including its rename
 (open, write, flush, fsync, file close, rename); actor 1 opens (the lock is free); actor 0's next step; actor 2
@@ -346,7 +376,7 @@ theorem old_program_mutex_counterexample :
       -- the step that did it: actor 0 unlinking a lock file created by actor 1
       (let s6 := run gitFileOld three (oldDefectSchedule.take 7)
        s6.fs.lock = some 1 ∧ (s6.actors 0).owns = false ∧
-       (actorStep gitFileOld (s6.actors 0) s6.fs.lock.isSome false).2.1 = .remove) := by
+       (actorStep gitFileOld (s6.actors 0) s6.fs.lock.isSome s6.fs.dir s6.fs.isEmpty false).2.1 = .remove) := by
   decide
 
 /-- The old program also breaks all-or-nothing replacement: continuing that schedule, actor 1's
@@ -372,7 +402,7 @@ theorem old_schedule_harmless_now :
 and still holds the lock; only finalisation of the handle (`fin = true` in
 `failed_write_keeps_old`) releases it. -/
 theorem with_close_fault_leaves_lock_counterexample :
-    let s := run gitFilePreOutsideTry (State.ofList true [withCaller true false [A] false])
+    let s := run gitFilePreOutsideTry (State.ofList true [withCaller false true false [A] false])
       [(0, false), (0, false), (0, false), (0, true)]
     (s.actors 0).pc = .done ∧ (s.actors 0).owns = true ∧ s.fs.lock = some 0 ∧
       (s.actors 0).rmFailed = false := by
@@ -382,7 +412,7 @@ theorem with_close_fault_leaves_lock_counterexample :
 lock released although the handle was never finalised: fsync fails, abort() closes the file object
 and unlinks. -/
 theorem with_close_fault_releases_now :
-    let s := run gitFile (State.ofList true [withCaller true false [A] false])
+    let s := run gitFile (State.ofList true [withCaller false true false [A] false])
       [(0, false), (0, false), (0, false), (0, true), (0, false), (0, false)]
     (s.actors 0).pc = .done ∧ (s.actors 0).owns = false ∧ s.fs.lock = none ∧
       content s [0] = some [0] := by
@@ -395,7 +425,7 @@ full), the flush in close() fails, the `finally: self.abort()` closes the file o
 implicit flush fails again, and that exception leaves abort() — and close() — before the unlink:
 the caller is done, not finalised, and still holds the lock. -/
 theorem persistent_fault_abort_skips_unlink_counterexample :
-    let s := run gitFileAbortCloseOutsideTry (State.ofList true [withCaller true false [A] false])
+    let s := run gitFileAbortCloseOutsideTry (State.ofList true [withCaller false true false [A] false])
       [(0, false), (0, false), (0, true), (0, true)]
     (s.actors 0).pc = .done ∧ (s.actors 0).owns = true ∧ s.fs.lock = some 0 ∧
       (s.actors 0).rmFailed = false ∧ (s.actors 0).fcFailed = true ∧ content s [0] = some [0] := by
@@ -403,7 +433,7 @@ theorem persistent_fault_abort_skips_unlink_counterexample :
 
 /-- … and the program as it is now (eda3035) ends the same fault sequence with the lock released. -/
 theorem persistent_fault_releases_now :
-    let s := run gitFile (State.ofList true [withCaller true false [A] false])
+    let s := run gitFile (State.ofList true [withCaller false true false [A] false])
       [(0, false), (0, false), (0, true), (0, true), (0, false)]
     (s.actors 0).pc = .done ∧ (s.actors 0).owns = false ∧ s.fs.lock = none ∧
       (s.actors 0).fcFailed = false ∧ content s [0] = some [0] := by
@@ -412,7 +442,7 @@ theorem persistent_fault_releases_now :
 /-- (the same for the explicit patched variant, independent of what the source says) -/
 theorem persistent_fault_releases_when_abort_close_in_try :
     let P : Program := { gitFile with abortCloseInTry := true }
-    let s := run P (State.ofList true [withCaller true false [A] false])
+    let s := run P (State.ofList true [withCaller false true false [A] false])
       [(0, false), (0, false), (0, true), (0, true), (0, false)]
     P.wellBehaved = true ∧ (s.actors 0).pc = .done ∧ (s.actors 0).owns = false ∧
       s.fs.lock = none ∧ content s [0] = some [0] := by
@@ -432,9 +462,9 @@ theorem index_write_counterexample :
 and for the close alike), so `with_commit_complete`, `failed_write_keeps_old`,
 `close_failure_releases_lock_now` apply to it … -/
 theorem index_write_now_is_with_caller (fs pm : Bool) (ds : List Bytes) :
-    indexWriteCallerNow fs pm ds = withCaller fs pm ds true := by
+    indexWriteCallerNow fs pm ds = withCaller false fs pm ds true := by
   simp [indexWriteCallerNow, withCaller, Gen.Lock.indexWriteErrCloses,
-    Gen.Lock.exitAbortsOnException, Gen.Lock.delAborts]
+    Gen.Lock.exitAbortsOnException, Gen.Lock.delAborts, Actor.init]
 
 /-- … and on the schedule of `index_write_counterexample` (second write fails) it leaves the old
 content in place and the lock released. -/
@@ -445,18 +475,50 @@ theorem index_write_now_keeps_old :
       (s.actors 0).owns = false := by
   decide
 
+/-- LOCK ACQUISITION WHEN THE PARENT DIRECTORY IS MISSING.  A program whose `__init__` retries the
+open WITHOUT O_EXCL after ENOENT and re-creating the directory (`opens = [true, false]`) does not
+pass the check, and violates mutual exclusion: the directory is absent; actor 0's exclusive open
+fails with ENOENT; actor 1 (whose caller does `ensure_dir_exists`) creates the directory and takes
+the lock; actor 0 re-creates the directory (it exists: fine) and its non-exclusive retry succeeds
+— two holders. -/
+theorem retry_without_excl_counterexample :
+    let P : Program := { gitFile with opens := [true, false] }
+    let s := run P (State.ofList false [withCaller false true false [A] false,
+                                        withCaller true true false [B] false] false)
+      [(0, false), (1, false), (1, false), (0, false), (0, false)]
+    P.wellBehaved = false ∧ (s.actors 0).owns = true ∧ (s.actors 1).owns = true := by
+  decide
+
+/-- The same schedule on the program as it is now: actor 0's only open fails (FileNotFoundError
+reaches its caller, it never gets a handle), actor 1 holds the lock alone. -/
+theorem missing_directory_schedule_harmless_now :
+    let s := run gitFile (State.ofList false [withCaller false true false [A] false,
+                                              withCaller true true false [B] false] false)
+      [(0, false), (1, false), (1, false), (0, false), (0, false)]
+    (s.actors 0).pc = .done ∧ (s.actors 0).opened = false ∧ (s.actors 0).owns = false ∧
+      (s.actors 1).owns = true ∧ s.fs.lock = some 1 ∧ s.fs.dir = true := by
+  decide
+
 /-! ## 5. non-vacuity -/
 
 /-- the hypotheses of the theorems are satisfiable: `three` is an initial state made of
 with-callers, and a non-trivial state (actor 1 holding the lock after actor 0 committed) is
 reachable from it -/
-example : Initial three ∧ three.actors 1 = withCaller true false [B] false ∧
+example : Initial three ∧ three.actors 1 = withCaller false true false [B] false ∧
     Reach gitFile three (run gitFile three oldDefectSchedule) :=
-  ⟨State.ofList_initial _ _ (by
+  ⟨State.ofList_initial _ _ _ (by
       intro a ha
       simp only [List.mem_cons, List.not_mem_nil, or_false] at ha
-      rcases ha with rfl | rfl | rfl <;> exact ⟨_, _, _, _, _, rfl⟩),
+      rcases ha with rfl | rfl | rfl <;> exact Actor.init_fresh _ _ _ _ _ _),
    rfl, reach_run _ _ _⟩
+
+/-- pruners exist and matter: from a state with the directory present a pruner removes it (it is
+empty), after which a writer whose caller does not re-create it cannot even open -/
+example :
+    let s := run gitFile (State.ofList false [Actor.pruner, withCaller false true false [A] false])
+      [(0, false), (1, false)]
+    s.fs.dir = false ∧ (s.actors 1).pc = .done ∧ (s.actors 1).opened = false := by
+  decide
 
 /-- a failing call exists in a reachable state (hypothesis `hfail` of `failed_write_keeps_old`):
 the fsync of actor 0 made to fail -/
